@@ -42,6 +42,7 @@ func init() {
 	register("C06clean", func(s *simrt.Sim) *Result { return RunPass(s, PassProfile{Name: "C06clean"}) })
 	register("C20", func(s *simrt.Sim) *Result { return RunPass(s, PassProfile{Name: "C20", BadMetadata: true}) })
 	register("C09", RunGossip)
+	register("C19", RunTLS)
 	register("C10", func(s *simrt.Sim) *Result { return RunMux(s, MuxProfile{Name: "C10"}) })
 	register("C11", func(s *simrt.Sim) *Result { return RunMux(s, MuxProfile{Name: "C11", RPCs: true}) })
 	register("C08", func(s *simrt.Sim) *Result {
